@@ -712,6 +712,17 @@ func dualWorldRun(emb map[string]*Compiled, differing []string, tier string) (in
 // dualGridsFor lists the exhaustive grids that exercise a contract: they are evaluated once on the sources and
 // once on the shipped executable, and every case must end the same way.
 func dualGridsFor(contract string) map[string]func() GridDriver {
+	m := dualGridsOf(contract)
+	if m == nil {
+		m = map[string]func() GridDriver{}
+	}
+	// the update hook runs only when an older deployment is updated: every (version, legacy storage) case of the
+	// upgrade grid is updated once to the sources and once to the shipped executable
+	m["upgrade-window"] = func() GridDriver { return &UpGrid{only: contract} }
+	return m
+}
+
+func dualGridsOf(contract string) map[string]func() GridDriver {
 	switch contract {
 	case "nns":
 		return map[string]func() GridDriver{"nns-validators": func() GridDriver { return NewValGrid() }}
@@ -767,6 +778,9 @@ func evalGridAll(mk func() GridDriver, tier string) map[string]string {
 				o := r.Outcome
 				for _, v := range r.V {
 					o += " !" + v.Class
+				}
+				if r.Digest != "" {
+					o += " state " + r.Digest
 				}
 				res[i] = o
 			}
